@@ -1,6 +1,6 @@
 ------------------------------ MODULE HistoryMC ------------------------------
 EXTENDS History, Json
-C12 == 1..12
+C12 == 1..14
 C8 == 1..8
 C22 == 1..26
 Init == InitWith("func")
